@@ -318,6 +318,11 @@ func runScenario(sc tlive.Scenario, seed uint64) childLine {
 		if res.NotQuiet != "" || tlive.MissingStarts(res) == 0 || attempts >= 3 {
 			break
 		}
+		if tlive.HardEvidence(sc, res) {
+			// not a matter of timing: this run is the one Coq gets
+			counts["live-kept-run-with-hard-evidence"]++
+			break
+		}
 		counts["live-rerun-after-missing-start"]++
 	}
 	l := childLine{Case: sc, Counts: counts}
